@@ -60,6 +60,27 @@ def cases(tier, rng):
                     ops.append("feedall")
             out.append("y%d sock %s / %s" % (k, t, " / ".join(ops)))
             k += 1
+    # a peer that has gone, observed by the socket, while its id is still queued in the rotation: the sends that skip it
+    # still write the message intact to exactly one live peer, in rotation; with no peer left the message comes back intact
+    for t in ("REQ", "DEALER"):
+        for n in (1, 2, 3, 4):
+            names = "abcd"[:n]
+            for vi in range(n):
+                v = names[vi]
+                ops = ["attach %s %s" % (c, peer(t)) for c in names]
+                if t == "REQ":
+                    for i in range(vi):
+                        ops += ["send %s" % W.tok(b"w%d" % i)] + ["wire " + c for c in names] + ["feed %s %s" % (names[i], W.tok(W.msg([b"", b"ok"]))), "recv"]
+                    ops += ["send 7631"] + ["wire " + c for c in names] + ["eof " + v, "recv"]
+                else:
+                    ops += ["feed %s 0009aabb" % v, "eof " + v, "recv"]
+                live = [c for c in names if c != v]
+                for i in range(2 * n + 1):
+                    ops += ["send %s;%s" % (W.tok(b"d%d" % i), W.tok(b"x" * (i % 3)))] + ["wire " + c for c in live]
+                    if t == "REQ" and live:
+                        ops += ["feed %s %s" % (c, W.tok(W.msg([b"", b"ok"]))) for c in live] + ["recv"]
+                out.append("d%d sock %s / %s" % (k, t, " / ".join(ops)))
+                k += 1
     # known class: a peer re-joins under its old identity while its stale id is still queued
     out.append("z%d sock DEALER / attach a ROUTER id=41 / attach b ROUTER id=42 / feed a 0009aabb / eof a / recv / attach c ROUTER id=41 / "
                "send 31 / wire b / wire c / send 32 / wire b / wire c / send 33 / wire b / wire c / send 34 / wire b / wire c / send 35 / wire b / wire c / send 36 / wire b / wire c" % k)
@@ -106,6 +127,8 @@ def judge(line, obs, orc):
         op, tk = po[i]
         if op[0] == "attach":
             attached.append(op[1])
+        if op[0] == "eof" and op[1] in attached:
+            attached.remove(op[1])      # (the cases let the socket observe the loss before the next send)
         if op[0] == "send":
             frames = S.frames_of_tok(op[1])
             wires = {}
